@@ -69,6 +69,12 @@ CLAIMED = {
    text="from_json inverts the documented encodings for every value within the bounds: every i128 through 0x + 32 hex digits (both cases), decimal strings of 1-6 digits with optional sign, every JSON integer, the five boolean forms (and nothing else among all 4/5-character strings and all integers), 0-3 bytes as bare and 0x hex, txid#index with 1-4 digit indices; for every string of up to 4 (quick) / 6 (thorough) printable ASCII characters and every target type the result is Ok only for a documented encoding and never a panic; envelope decoding never panics for any content of up to 4 characters; parse_resolve_request hands over exactly the declared parameters that args or env supply (presence of each key symbolic), coerced by declared type.",
    note="string primitives (starts_with, strip_prefix, trim_start_matches, split_once, hex::decode, from_str_radix, parse) are models; base64 / bech32 / ciborium are uninterpreted; serde_json parsing happens before this code.",
    design="§3 C16"),
+ "C01": dict(
+   technique="translation validation per corpus program: real front end run natively, back end executed symbolically from MIR (mirsym -> z3), body compared with a hand-written denotation",
+   category="translation_validation",
+   text="8 corpus programs (integer arithmetic with left-nested and parenthesised subtraction, multi-asset arithmetic, input datum with spread and variant cases, mint/burn/validity/signers/metadata/reference/collateral, list index / concat / list / map literals, locals and env, time/slot built-ins, two inputs) x 3 whitespace/comment layouts are parsed, analysed and lowered by the repository's own front end; the lowered TIR is then applied, reduced and compiled by the real back end executed from MIR with arguments, UTxO amounts and fee symbolic, and z3 shows every output (address, lovelace, per-class native assets, datum tree, order), mint quantity, validity bound, signer, reference, collateral, input, metadata entry and the fee equal to the denotation written by hand for that program.",
+   note="programs are enumerated (the corpus), not solver-quantified; amounts below 2^16 (quick) / 2^40 (thorough); one UTxO per input; min_utxo and byte-level CBOR outside.",
+   design="§3 C01, §A.6"),
 }
 
 NA = {
@@ -84,7 +90,7 @@ NA = {
  "C13": "quantifier over program structure through Rc<Scope>/HashMap symbol resolution: outside solver-based checking here (DESIGN.md §4)",
  "C15": "not yet built: needs engine M — DESIGN.md §3 C15",
  "C16": "not yet built: needs engine M (string models) — DESIGN.md §3 C16",
- "C17": "not yet built: low priority, engine M over tx3c MIR — DESIGN.md §3 C17",
+ "C17": "not built: would need engine M over the tx3c binary crate plus construction of tx3-lang AST values (name spelling in the TII emitter vs. the lowering); no check is registered — DESIGN.md §A.6",
  "C18": "cross-process hyper-property whose only mechanism is HashMap iteration inside serde: no function body of the repository to encode (DESIGN.md §4)",
  "C19": "not yet built: engine M over tx3-lang MIR — DESIGN.md §3 C19",
  "C20": "two-run comparison over uninterpreted encoders is under-constrained (spurious counterexamples); a stronger sufficient condition would demand more than the property states (DESIGN.md §4)",
@@ -101,7 +107,7 @@ def main():
             evidence_file="/verif/evidence/%s.json" % pid,
             replay_cmd_template="./check %s --replay {path}" % pid,
             engine=c.get("engine", "K+M"),
-            level_claimed=dict(category="model_checking", text=c["text"], design_ref=c["design"]),
+            level_claimed=dict(category=c.get("category", "model_checking"), text=c["text"], design_ref=c["design"]),
             level_note=c["note"],
             technique=c["technique"]))
     m["not_applicable"] = [dict(property_id=k, reason=v) for k, v in sorted(NA.items()) if k not in CLAIMED]
